@@ -369,6 +369,69 @@ UNITS.append(Unit('channel_view', 'C02', C_CH, extracts=X_CH, replay=REPLAY_CH, 
                            'memory_based_step_iterator(base, step), memory_based_2d_locator(xit, row_bytes) and interleaved_view(w, h, ptr, row_bytes) store their arguments; a plain channel pointer steps by sizeof(channel)',
                            'a non-step x-iterator type steps by memunit_step(x_iterator()) (probe: sizeof(pixel) interleaved, sizeof(channel) planar)']))
 
+# ---------------------------------------------------------------------------------------------------------------------------------------
+# make_step_iterator over compound iterators (step_iterator.hpp): "step composition for adaptors of adaptors"
+SI = 'step_iterator.hpp'
+X_MSI = [X('msi_false', SI, r'auto make_step_iterator_impl\(I const& it, std::ptrdiff_t step, std::false_type\)\s*->[^{]*\{', count=1,
+           rules=[('R12.ctor', r'memory_based_step_iterator<I>\(it, step\)', 'STEP_ITER_CTOR(*it, step)', True)]),
+         X('msi_step', SI, r'auto make_step_iterator_impl\(\s*memory_based_step_iterator<BaseIt> const& it,\s*std::ptrdiff_t step,\s*std::true_type\)\s*->[^{]*\{', count=1,
+           rules=[('R12.ctor', r'memory_based_step_iterator<BaseIt>\(it\.base\(\), step\)', 'STEP_ITER_CTOR(BASE(it), step)', True)]),
+         X('msi_deref', SI, r'auto make_step_iterator_impl\(\s*dereference_iterator_adaptor<It, DFn> const& it,\s*std::ptrdiff_t step,\s*std::true_type\)\s*->[^{]*\{', count=1,
+           rules=[('R6.drop_using', r'using result_t = [^;]+;', '', False), ('R12.ctor', r'\bresult_t\(', 'DEREF_ADAPTOR_CTOR(', True),
+                  ('R11.base', r'\bit\.base\(\)', 'BASE(it)', True), ('R11.fn', r'\bit\.deref_fn\(\)', 'DEREF_FN(it)', True)])]
+C_MSI = r'''
+/* ghost compound x-iterator: up to two dereference adaptors (function-object states fn0 outer, fn1 inner) over an optional
+   memory_based_step_iterator over a plain pixel pointer at address a */
+typedef struct { int nderef; int64_t fn0, fn1; _Bool has_step; int64_t step; int64_t a; } git_t;
+static git_t BASE(const git_t* it) { git_t r = *it; if (r.nderef > 0) { r.nderef = r.nderef - 1; r.fn0 = r.fn1; r.fn1 = 0; } else { __CPROVER_assert(r.has_step, "base() of a plain iterator"); r.has_step = 0; r.step = 0; } return r; }
+#define DEREF_FN(it) ((it)->fn0)
+/* dereference_iterator_adaptor(base, fn) and memory_based_step_iterator(base, step) store their arguments */
+static git_t DEREF_ADAPTOR_CTOR(git_t base, int64_t fn) { git_t r = base; __CPROVER_assert(base.nderef < 2, "ghost: at most two adaptor layers"); r.nderef = base.nderef + 1; r.fn1 = base.fn0; r.fn0 = fn; return r; }
+static git_t STEP_ITER_CTOR(git_t base, ptrdiff_t step) { git_t r = base; __CPROVER_assert(base.nderef == 0 && !base.has_step, "the step iterator wraps the plain base iterator"); r.has_step = 1; r.step = step; return r; }
+git_t msi_false(const git_t* it, ptrdiff_t step) @@msi_false@@
+git_t msi_step(const git_t* it, ptrdiff_t step) @@msi_step@@
+/* make_step_iterator dispatches on is_iterator_adaptor and, by partial ordering, on the adaptor kind; the recursion through it.base() is
+   unrolled over the (at most two) adaptor layers */
+git_t make_step_iterator_0(git_t it, ptrdiff_t step) { if (it.has_step) return msi_step(&it, step); return msi_false(&it, step); }
+#define make_step_iterator make_step_iterator_0
+git_t msi_deref_1(const git_t* it, ptrdiff_t step) @@msi_deref@@
+#undef make_step_iterator
+git_t make_step_iterator_1(git_t it, ptrdiff_t step) { if (it.nderef >= 1) return msi_deref_1(&it, step); return make_step_iterator_0(it, step); }
+#define make_step_iterator make_step_iterator_1
+git_t msi_deref_2(const git_t* it, ptrdiff_t step) @@msi_deref@@
+#undef make_step_iterator
+git_t make_step_iterator_2(git_t it, ptrdiff_t step) { if (it.nderef >= 2) return msi_deref_2(&it, step); return make_step_iterator_1(it, step); }
+#ifndef VERIF_NATIVE
+void h_make_step_iterator(void){ git_t it; ptrdiff_t s; __CPROVER_assume(0 <= it.nderef && it.nderef <= 2); if (it.nderef < 2) it.fn1 = 0; if (it.nderef < 1) it.fn0 = 0; if (!it.has_step) it.step = 0;
+  git_t r = make_step_iterator_2(it, s);
+  __CPROVER_assert(r.a == it.a, "make_step_iterator.ensures: the result addresses the same pixel");
+  __CPROVER_assert(r.has_step && r.step == s, "make_step_iterator.ensures: the step iterator inside the result has the requested step");
+  __CPROVER_assert(r.nderef == it.nderef && r.fn0 == it.fn0 && r.fn1 == it.fn1, "make_step_iterator.ensures: every dereference adaptor keeps its function object (channel index of nth_channel_deref_fn, colour converter, ...)");
+  __CPROVER_assert(0, "VACUITY"); }
+#endif
+'''
+REPLAY_MSI = r'''
+// native: stepped (flipped / subsampled / transposed) views of views that carry a stateful dereference adaptor
+#include <boost/gil.hpp>
+#include "vreplay.hpp"
+using namespace boost::gil;
+int main(int argc, char** argv){ vr::parse(argc, argv);
+  rgb16_image_t img(4, 3); auto v = view(img); for (int y = 0; y < 3; y++) for (int x = 0; x < 4; x++) v(x, y) = rgb16_pixel_t(256 * (x + 1), 256 * (10 + x + 4 * y), 256 * (100 + x + 5 * y));
+  auto cc = color_converted_view<rgb8_pixel_t>(v);
+  for (int n = 0; n < 3; n++) { auto nv = nth_channel_view(cc, n);
+    auto f = flipped_left_right_view(nv); for (int y = 0; y < 3; y++) for (int x = 0; x < 4; x++) if (f(x, y)[0] != nv(3 - x, y)[0])
+      REPRODUCED("flipped_left_right_view(nth_channel_view(color_converted_view(v), %d))(%d,%d) = %d, but the source pixel (%d,%d) holds %d", n, x, y, (int)f(x, y)[0], 3 - x, y, (int)nv(3 - x, y)[0]);
+    auto s2 = subsampled_view(nv, 2, 1); for (int y = 0; y < 3; y++) for (int x = 0; x < 2; x++) if (s2(x, y)[0] != nv(2 * x, y)[0])
+      REPRODUCED("subsampled_view(nth_channel_view(color_converted_view(v), %d), 2, 1)(%d,%d) = %d, but the source pixel (%d,%d) holds %d", n, x, y, (int)s2(x, y)[0], 2 * x, y, (int)nv(2 * x, y)[0]);
+    auto t = transposed_view(nv); for (int y = 0; y < 4; y++) for (int x = 0; x < 3; x++) if (t(x, y)[0] != nv(y, x)[0])
+      REPRODUCED("transposed_view(nth_channel_view(color_converted_view(v), %d))(%d,%d) differs from the source pixel (%d,%d)", n, x, y, y, x); }
+  NOT_REPRODUCED("stepped views of adapted views keep the adaptor's function object"); }
+'''
+UNITS.append(Unit('step_adaptor', 'C02', C_MSI, extracts=X_MSI, replay=REPLAY_MSI,
+                  checks=[Check('make_step_iterator', 'h_make_step_iterator', engine='D', timeout=300)],
+                  assumed=['overload resolution: a dereference_iterator_adaptor argument selects the overload written for it, a memory_based_step_iterator its own, any other iterator the false_type overload',
+                           'it.base() strips the outermost layer; the adaptor / step iterator constructors store their arguments; at most two dereference adaptors are stacked (ghost bound)']))
+
 META = dict(
     not_covered=['nth_channel_view / kth_channel_view of non-basic views (nth_channel_deref_fn adaptor path)',
                  'color_converted_view: value-level, belongs to C09 (color_convert_deref_fn)',
